@@ -30,7 +30,7 @@ COMPONENTS = {
     'real': ['singlecellmultiomics.molecule.MoleculeIterator', 'Molecule.can_be_yielded/add_fragment', 'NlaIIIFragment', 'NlaIIIMolecule', 'pysam.AlignedSegment'],
     'stub': [],
 }
-REQUIRED_PROBES = ['single_end_long_reads', 'plain_chained_fragments', 'ejection_popped', 'non_prefix_pop_list', 'final_flush_nonempty', 'duplicate_arrives_after_ejectable_unrelated']
+REQUIRED_PROBES = ['abandoned_pass_then_full_pass', 'single_end_long_reads', 'plain_chained_fragments', 'ejection_popped', 'non_prefix_pop_list', 'final_flush_nonempty', 'duplicate_arrives_after_ejectable_unrelated']
 EXHAUSTIVE_NOTE = 'check_eject_every is enumerated exhaustively (None, 0..n) per sampled input and pooling method; inputs and cache sizes are sampled'
 
 
@@ -121,7 +121,9 @@ def generate(seed, tier):
         frags = [dict(g, n=i) for i, g in enumerate(frags) if g['site'] - g['L'] > 10]
     return {'params': {'cache_size': cache, 'pooling': [0, 1], 'umi_hd': 0, 'kind': kind, 'layout': layout},
             'workload': frags,
-            'schedules': [None] + list(range(0, len(frags) + 1))}
+            'schedules': [None] + list(range(0, len(frags) + 1)),
+            # histories on ONE iterator object: a pass abandoned after k molecules (consumer break / exception), then a complete pass
+            'reiterate': [[st.schedule.choice([None, 0, 1, 2, 5]), st.schedule.randint(0, 3)] for _ in range(2)]}
 
 
 def _run(header, frags_sorted, cache, pooling, sched, kind='nla'):
@@ -231,6 +233,34 @@ def execute(case):
                              'signature': f"pooling{pooling}/{'split' if split else 'merged'}",
                              'detail': {'pooling': pooling, 'schedule': sched, 'early': early,
                                         'got_only': sorted(map(sorted, part - base))[:4], 'ref_only': sorted(map(sorted, base - part))[:4]}})
+    # ---- abandoned pass, then a complete pass on the same iterator object
+    from singlecellmultiomics.molecule import MoleculeIterator, NlaIIIMolecule, Molecule
+    from singlecellmultiomics.fragment import NlaIIIFragment, Fragment
+    for (sched, k) in case.get('reiterate') or []:
+        for pooling in p['pooling']:
+            evals += 1
+            mcls, fcls, fargs = (NlaIIIMolecule, NlaIIIFragment, {'umi_hamming_distance': 0}) if kind == 'nla' else (Molecule, Fragment, {'umi_hamming_distance': 0, 'assignment_radius': 0})
+            pairs = [lib.build_pair(header, f) for f in fs]
+            it = MoleculeIterator(pairs, molecule_class=mcls, fragment_class=fcls, molecule_class_args={'cache_size': cache}, fragment_class_args=fargs,
+                                  pooling_method=pooling, check_eject_every=sched, perform_qflag=False)
+            try:
+                first = []
+                for m in it:
+                    first.append(m)
+                    if len(first) > k:
+                        break           # the consumer walks away
+                second = [tuple(sorted(int((fr[0] if fr[0] is not None else fr[1]).query_name[1:]) for fr in m.fragments)) for m in it]
+            except Exception as e:
+                viol.append({'property': PROPERTY, 'class': 'iterator-raised', 'signature': 'reiterate/' + type(e).__name__,
+                             'detail': {'pooling': pooling, 'schedule': sched, 'error': repr(e)[:300]}})
+                continue
+            probe('abandoned_pass_then_full_pass')
+            flat = sorted(n for g in second for n in g)
+            log.add('reiterate', pooling, sched, k, sorted(second))
+            if flat != sorted(f['n'] for f in frags):
+                viol.append({'property': PROPERTY, 'class': 'state-leaks-into-next-pass', 'signature': f'pooling{pooling}',
+                             'detail': {'pooling': pooling, 'schedule': sched, 'abandoned_after': k + 1, 'n_in': len(frags), 'n_out': len(flat),
+                                        'duplicated': sorted({n for n in flat if flat.count(n) > 1})[:5]}})
     # non-prefix pop list probe (recomputed from the model: an ejectable molecule behind a non-ejectable one in buffer order)
     probes['non_prefix_pop_list'] = probes.get('non_prefix_pop_list', 0) + _non_prefix_possible(fs, cache)
     return {'violations': viol, 'digest': log.digest(), 'probes': probes, 'faults': {}, 'evals': evals, 'sigs': sigs,
@@ -266,7 +296,7 @@ def sample_view(case, out):
 
 
 def LIST_PATHS(case):
-    return [('params', 'pooling'), ('workload',), ('schedules',)]
+    return [('params', 'pooling'), ('workload',), ('schedules',), ('reiterate',)]
 
 
 def _shrink(case):
